@@ -8,7 +8,7 @@ import z3
 from vlib.harness import Harness, Exc
 from vlib.zutil import TI, TB, z_and, z_or
 
-GENOME = ["chr1", "chr2", "chr3"]
+GENOME = ["chr1", "chr2", "chr10"]          # genome order is not the alphabetical order of the names
 NAMES = GENOME + ["chrUn", "chr1_alt"]          # index 3: not in the genome; index 4: ignored by default (underscore)
 UNK, IGN = 3, 4
 
@@ -36,6 +36,29 @@ class SymName:
 
     def __ne__(self, other):
         return not self.__eq__(other)
+
+    # ordering: the string order of the names (decided per feasible name: forks)
+    def _name(self):
+        return NAMES[int(self.sv)]
+
+    def _other(self, other):
+        return other._name() if isinstance(other, SymName) else other
+
+    def __lt__(self, other):
+        o = self._other(other)
+        return self._name() < o if isinstance(o, str) else NotImplemented
+
+    def __le__(self, other):
+        o = self._other(other)
+        return self._name() <= o if isinstance(o, str) else NotImplemented
+
+    def __gt__(self, other):
+        o = self._other(other)
+        return self._name() > o if isinstance(o, str) else NotImplemented
+
+    def __ge__(self, other):
+        o = self._other(other)
+        return self._name() >= o if isinstance(o, str) else NotImplemented
 
     def __hash__(self):
         return hash(NAMES[int(self.sv)])    # concretises (forks over the feasible names)
@@ -72,7 +95,7 @@ class ChromosomeSync(Harness):
     functions = ("GenomeContext.iter_chromosomes/_included_groups/chromosome_order", "SynchedStream.__iter__", "left_join")
     stubs = ("groupby replaced by an iterator over the given pre-grouped (name, table) pairs (its contract for data whose equal names "
              "are adjacent); group payloads are opaque one-row tables")
-    bounds = {"quick": "genome chr1, chr2, chr3 (+ unknown name chrUn, + ignored name chr1_alt); 0-3 data groups with pairwise distinct "
+    bounds = {"quick": "genome chr1, chr2, chr10 (+ unknown name chrUn, + ignored name chr1_alt); 0-3 data groups with pairwise distinct "
                        "SYMBOLIC names over the 5 names: all subsets in all orders; the consumer drains the iterator",
               "thorough": "0-4 groups"}
     assumptions = ("entries of one contig are contiguous in the data (precondition of the property): group names are pairwise distinct",)
@@ -95,7 +118,7 @@ class ChromosomeSync(Harness):
         pairs = [(names[j], token_table(ctx, j)) for j in range(m)]
         if skel["api"] == "iter_chromosomes":
             import bionumpy.genomic_data.genome_context as gcm
-            gc = gcm.GenomeContext.from_dict({"chr1": 10, "chr2": 10, "chr3": 10, "chr1_alt": 5})
+            gc = gcm.GenomeContext.from_dict({"chr1": 10, "chr2": 10, "chr10": 10, "chr1_alt": 5})
             old = gcm.groupby
             gcm.groupby = lambda data, field=None: iter(data)
             try:
@@ -168,4 +191,111 @@ class ChromosomeSync(Harness):
         return None if yielded == exp else f"{skel['api']}: groups {names}: per-contig yields {yielded}, expected {exp}"
 
 
-HARNESSES = [ChromosomeSync()]
+def compositions(n):
+    """all ways to cut n entries into consecutive non-empty chunks"""
+    out = []
+    for bits in itertools.product([0, 1], repeat=n - 1):
+        sizes, cur = [], 1
+        for b in bits:
+            if b:
+                sizes.append(cur); cur = 1
+            else:
+                cur += 1
+        sizes.append(cur)
+        out.append(sizes)
+    return out
+
+
+class GroupbyChunks(Harness):
+    """the real streaming groupby (groupby per chunk + join_groupbys across chunk borders) and the per-chromosome iteration built on it:
+    contig names are concrete per skeleton (the group key is a Python string), the entries' payload is symbolic"""
+    name = "groupby_chunks"
+    functions = ("groupby (get_changes/get_ragged_changes, single-group shortcut)", "join_groupbys", "streamable", "NpDataclassStream",
+                 "GenomeContext.iter_chromosomes on a chunked stream")
+    CONTIGS = ["1", "11", "2"]         # genome order; "1" is a suffix of "11"
+    bounds = {"quick": "4 entries with symbolic start/stop on contigs named 1, 11, 2 (genome order): every assignment of the entries to "
+                       "1-3 contigs in genome order x every way to cut the stream into chunks (8) x {groupby on the stream, "
+                       "iter_chromosomes on the stream}",
+              "thorough": "5 entries (16 chunkings)"}
+    assumptions = ("entries of one contig are contiguous and contigs come in genome order (precondition of the property)",)
+
+    def skeletons(self, tier, seed):
+        n = 4 if tier == "quick" else 5
+        out = []
+        for k in (1, 2, 3):
+            for names in itertools.combinations(range(3), k):
+                for sizes in [c for c in compositions(n) if len(c) == k]:
+                    contigs = [names[g] for g, sz in enumerate(sizes) for _ in range(sz)]
+                    for chunks in compositions(n):
+                        for api in ("groupby", "iter_chromosomes"):
+                            out.append(dict(n=n, contigs=contigs, chunks=chunks, api=api))
+        return out
+
+    def inputs(self, skel, V):
+        for i in range(skel["n"]):
+            V.int(f"s{i}", 0, 5)
+            V.int(f"w{i}", 1, 4)
+
+    def call(self, skel, x, ctx):
+        from bionumpy.datatypes import Interval
+        from bionumpy.streams import NpDataclassStream
+        from bionumpy.streams.groupby_func import groupby
+        n = skel["n"]
+        names = [self.CONTIGS[c] for c in skel["contigs"]]
+        starts = [x[f"s{i}"] for i in range(n)]
+        stops = [x[f"s{i}"] + x[f"w{i}"] for i in range(n)]
+        chunks, k = [], 0
+        for sz in skel["chunks"]:
+            chunks.append(Interval(names[k:k + sz], ctx.arr(starts[k:k + sz], "int64"), ctx.arr(stops[k:k + sz], "int64")))
+            k += sz
+        stream = NpDataclassStream(iter(chunks), dataclass=Interval)
+        if skel["api"] == "groupby":
+            groups = [(key, g) for key, g in itertools.islice(groupby(stream, "chromosome"), n + 2)]
+        else:
+            import bionumpy.genomic_data.genome_context as gcm
+            gc = gcm.GenomeContext.from_dict({c: 20 for c in self.CONTIGS})
+            groups = list(zip(self.CONTIGS, itertools.islice(gc.iter_chromosomes(stream, Interval), 5)))
+        return dict(groups=[(str(key), [nm.to_string() for nm in g.chromosome], ctx.lst(g.start), ctx.lst(g.stop)) for key, g in groups])
+
+    def _expected(self, skel):
+        """[(contig name, [entry indices])] in stream order"""
+        exp = []
+        for i, c in enumerate(skel["contigs"]):
+            if exp and exp[-1][0] == self.CONTIGS[c]:
+                exp[-1][1].append(i)
+            else:
+                exp.append((self.CONTIGS[c], [i]))
+        if skel["api"] == "iter_chromosomes":
+            d = dict(exp)
+            exp = [(c, d.get(c, [])) for c in self.CONTIGS]
+        return exp
+
+    def post(self, skel, x, out):
+        if isinstance(out, Exc):
+            return False
+        exp = self._expected(skel)
+        got = out["groups"]
+        if [g[0] for g in got] != [e[0] for e in exp]:
+            return False
+        conj = []
+        for (key, names, starts, stops), (ename, idx) in zip(got, exp):
+            if names != [ename] * len(idx) or len(starts) != len(idx) or len(stops) != len(idx):
+                return False
+            for j, i in enumerate(idx):
+                conj.append(TI(starts[j]) == x[f"s{i}"].t)
+                conj.append(TI(stops[j]) == x[f"s{i}"].t + x[f"w{i}"].t)
+        return z_and(conj)
+
+    def oracle(self, skel, cx, cout):
+        if isinstance(cout, Exc):
+            return f"{skel['api']} over chunks {skel['chunks']} of contigs {[self.CONTIGS[c] for c in skel['contigs']]} raised {cout}"
+        exp = [(nm, [(cx[f"s{i}"], cx[f"s{i}"] + cx[f"w{i}"]) for i in idx]) for nm, idx in self._expected(skel)]
+        got = [(g[0], list(zip(g[2], g[3]))) for g in cout["groups"]]
+        names_ok = all(g[1] == [g[0]] * len(g[2]) for g in cout["groups"])
+        if got != exp or not names_ok:
+            return (f"{skel['api']} over a stream of contigs {[self.CONTIGS[c] for c in skel['contigs']]} cut into chunks of sizes {skel['chunks']}: "
+                    f"groups {got}{'' if names_ok else ' (with entries of another contig inside)'}, expected {exp}")
+        return None
+
+
+HARNESSES = [ChromosomeSync(), GroupbyChunks()]
